@@ -10,5 +10,6 @@ CONSTANTS
   MCWrites = 1
   MCPauses = 1
   MCPanics = {FALSE}
+  MCGoAway = FALSE
 INVARIANTS NoViolation HandlerBound CtlBound StreamLimit QuiescentOK NeverHandled
 CHECK_DEADLOCK FALSE
